@@ -29,6 +29,74 @@ type c02Rule struct {
 	// stands for a capability set (deny; read+list; create+read+update+delete+list; the same + sudo)
 	// that is added to the capabilities list.
 	Legacy string `json:"legacy_policy_keyword,omitempty"`
+	// parameter constraints of the stanza (concepts/policies.mdx, "Parameter constraints")
+	Required []string            `json:"required_parameters,omitempty"`
+	Allowed  map[string][]string `json:"allowed_parameters,omitempty"`
+	Denied   map[string][]string `json:"denied_parameters,omitempty"`
+}
+
+func (r c02Rule) constrained() bool {
+	return len(r.Required) > 0 || len(r.Allowed) > 0 || len(r.Denied) > 0
+}
+
+// c02Cons: the parameter constraints in force on one pattern, and how many stanzas contributed to
+// the pattern (how the constraints of several stanzas on the same path combine is not documented:
+// the reference only decides when there is exactly one).
+type c02Cons struct {
+	Rule    c02Rule
+	Stanzas int
+	Any     bool
+}
+
+// c02ParamCheck applies the documented rules to the parameters of a create, update or patch request:
+// every required parameter must be present; a request without parameters is otherwise fine; a denied
+// parameter ("*": any parameter) must not be present with a listed value (empty list: with any
+// value) - denied takes precedence over allowed; when allowed_parameters is set, every parameter must
+// be listed in it (or "*" be listed), with one of the listed values if the list is not empty.
+func c02ParamCheck(r c02Rule, data map[string]any) (bool, string) {
+	has := func(list []string, v any) bool {
+		if len(list) == 0 {
+			return true
+		}
+		for _, x := range list {
+			if fmt.Sprint(v) == x {
+				return true
+			}
+		}
+		return false
+	}
+	for _, k := range r.Required {
+		if _, ok := data[k]; !ok {
+			return false, "required parameter " + k + " is missing"
+		}
+	}
+	if len(data) == 0 {
+		return true, ""
+	}
+	if len(r.Denied) > 0 {
+		if _, ok := r.Denied["*"]; ok {
+			return false, "denied_parameters lists \"*\""
+		}
+		for _, k := range c02SortedKeys(data) {
+			if vs, ok := r.Denied[k]; ok && has(vs, data[k]) {
+				return false, "parameter " + k + " is denied"
+			}
+		}
+	}
+	if len(r.Allowed) == 0 {
+		return true, ""
+	}
+	_, all := r.Allowed["*"]
+	for _, k := range c02SortedKeys(data) {
+		vs, ok := r.Allowed[k]
+		if !ok && !all {
+			return false, "parameter " + k + " is not listed in allowed_parameters"
+		}
+		if ok && !has(vs, data[k]) {
+			return false, "parameter " + k + " has a value that allowed_parameters does not list"
+		}
+	}
+	return true, ""
 }
 
 // eff: the capabilities a stanza grants. The list is a set: order and repetitions do not matter,
@@ -113,9 +181,33 @@ func (p *c02Policy) HCL() string {
 		if !r.Expire.IsZero() {
 			fmt.Fprintf(&b, "  expiration = %q\n", r.Expire.UTC().Format(time.RFC3339))
 		}
+		if len(r.Required) > 0 {
+			fmt.Fprintf(&b, "  required_parameters = [%s]\n", c02Quoted(r.Required))
+		}
+		for _, kv := range []struct {
+			name string
+			m    map[string][]string
+		}{{"allowed_parameters", r.Allowed}, {"denied_parameters", r.Denied}} {
+			if len(kv.m) == 0 {
+				continue
+			}
+			fmt.Fprintf(&b, "  %s = {\n", kv.name)
+			for _, k := range c02SortedKeys(kv.m) {
+				fmt.Fprintf(&b, "    %q = [%s]\n", k, c02Quoted(kv.m[k]))
+			}
+			b.WriteString("  }\n")
+		}
 		b.WriteString("}\n")
 	}
 	return b.String()
+}
+
+func c02Quoted(xs []string) string {
+	q := make([]string, len(xs))
+	for i, x := range xs {
+		q[i] = fmt.Sprintf("%q", x)
+	}
+	return strings.Join(q, ",")
 }
 
 type c02Mount struct {
@@ -492,8 +584,9 @@ func c02HasExact(rules map[string]map[string]bool, path string) bool {
 // set, union over policies with deny sticky. Path blocks whose expiration has passed
 // grant (and deny) nothing; ambiguous reports a block within the margin of its
 // expiration instant; withExpired is the same collection ignoring expirations.
-func (w *c02World) rulesFor(t *c02Tok, now time.Time) (out, withExpired map[string]map[string]bool, timed map[string]bool, ambiguous bool) {
+func (w *c02World) rulesFor(t *c02Tok, now time.Time) (out, withExpired map[string]map[string]bool, timed map[string]bool, ambiguous bool, cons map[string]*c02Cons) {
 	out, withExpired, timed = map[string]map[string]bool{}, map[string]map[string]bool{}, map[string]bool{}
+	cons = map[string]*c02Cons{}
 	names := append([]string(nil), t.Policies...)
 	if t.Entity != nil {
 		names = append(names, t.Entity.Policies...)
@@ -548,13 +641,24 @@ func (w *c02World) rulesFor(t *c02Tok, now time.Time) (out, withExpired map[stri
 				}
 			}
 			add(out, abs, r.eff())
+			c := cons[abs]
+			if c == nil {
+				c = &c02Cons{}
+				cons[abs] = c
+			}
+			c.Stanzas++
+			if r.constrained() {
+				c.Any, c.Rule = true, r
+			}
 		}
 	}
-	return out, withExpired, timed, ambiguous
+	return out, withExpired, timed, ambiguous, cons
 }
 
 // aclAllows: "allow" / "deny" / "unknown".
-func (w *c02World) aclAllows(t *c02Tok, reqNS, abs, op string, sudo bool, now time.Time) (string, string) {
+// aclAllows: data (optional) are the request's parameters; without them a stanza with parameter
+// constraints yields "unknown".
+func (w *c02World) aclAllows(t *c02Tok, reqNS, abs, op string, sudo bool, now time.Time, data ...map[string]any) (string, string) {
 	if t.Root {
 		if strings.HasPrefix(reqNS, t.NS) {
 			return "allow", "root policy"
@@ -566,11 +670,26 @@ func (w *c02World) aclAllows(t *c02Tok, reqNS, abs, op string, sudo bool, now ti
 	case "revoke", "renew", "rollback":
 		capName = "update"
 	}
-	rules, withExpired, timed, ambiguous := w.rulesFor(t, now)
+	rules, withExpired, timed, ambiguous, cons := w.rulesFor(t, now)
 	if ambiguous {
 		return "unknown", "a path block of the token's policies is within a second of its expiration, or a template value renders an invalid '+*'"
 	}
 	res, why := c02Decide(rules, abs, op, capName, sudo)
+	if c := cons[why]; res == "allow" && c != nil && c.Any {
+		switch {
+		case c.Stanzas > 1:
+			return "unknown", "several stanzas on " + why + ", one with parameter constraints (their combination is outside the reference)"
+		case op == "create" || op == "update" || op == "patch":
+			if len(data) == 0 {
+				return "unknown", "parameter constraints on " + why + " and the request's parameters are not known here"
+			}
+			if ok, reason := c02ParamCheck(c.Rule, data[0]); !ok {
+				return "deny", "parameters: " + reason + " (stanza " + why + ")"
+			}
+		case op == "read" && len(c.Rule.Required) > 0:
+			return "unknown", "a read on a stanza with required_parameters (not documented)"
+		}
+	}
 	if res == "deny" {
 		if r2, _ := c02Decide(withExpired, abs, op, capName, sudo); r2 == "allow" {
 			return "deny", "expired-grant: " + why
@@ -593,7 +712,7 @@ func (w *c02World) capsOf(t *c02Tok, reqNS, abs string, now time.Time) ([]string
 		}
 		return []string{"deny"}, true
 	}
-	rules, _, _, ambiguous := w.rulesFor(t, now)
+	rules, _, _, ambiguous, _ := w.rulesFor(t, now)
 	if ambiguous || strings.HasSuffix(abs, "/") {
 		return nil, false
 	}
@@ -773,11 +892,11 @@ func (w *c02World) judge(q *c02Req, now time.Time) *c02Verdict {
 	live, why := q.Tok.liveness(q.Remote, now)
 	acl, aclWhy := "deny", "forged token"
 	if !q.Tok.Forged || q.Tok.Policies != nil {
-		acl, aclWhy = w.aclAllows(q.Tok, ns, full, v.Op, rootPath, now)
+		acl, aclWhy = w.aclAllows(q.Tok, ns, full, v.Op, rootPath, now, q.Data)
 		if m == nil && (q.Op == "create" || q.Op == "update") {
 			// not a recording mount: whether the backend has an existence check (which
 			// turns the write into create or update) is not known to the reference
-			other, _ := w.aclAllows(q.Tok, ns, full, "create", rootPath, now)
+			other, _ := w.aclAllows(q.Tok, ns, full, "create", rootPath, now, q.Data)
 			if other != acl {
 				acl, aclWhy = "unknown", "create/update resolution of a backend the harness does not model"
 			}
